@@ -29,10 +29,11 @@ Theorem c06_starttls_fresh : forall t st e st' evs,
 Proof. exact starttls_fresh. Qed.
 Print Assumptions c06_starttls_fresh.
 
-(** (e) every line with a tag and a command word receives exactly one tagged
-    completion (min = max = 1 over all paths of the handler it dispatches to) *)
-Theorem c06_one_tagged_reply : forall t, replies_ok t = true ->
-  forall line, 2 <= length (fields (trim_space line)) -> tagged_for_line t line = (1, 1).
+(** (e) every non-empty line receives exactly one tagged completion (min = max
+    = 1 over all paths of the handler it dispatches to; a line with a tag and
+    nothing else gets a tagged BAD) *)
+Theorem c06_one_tagged_reply : forall t, replies_ok t = true -> f_short_tagged t = true ->
+  forall line, 1 <= length (fields (trim_space line)) -> tagged_for_line t line = (1, 1).
 Proof. exact one_tagged_per_line. Qed.
 Print Assumptions c06_one_tagged_reply.
 
@@ -57,16 +58,15 @@ Print Assumptions c06_auth_only_by_accepted_login.
 (** The obligations on the CURRENT tree: recomputed from the regenerated table. *)
 Theorem c06_facts_now :
   guards_ok Gen.Facts.table && restart_ok Gen.Facts.table && replies_ok Gen.Facts.table
-  && f_select_clears Gen.Facts.table && f_auth_final Gen.Facts.table = true.
+  && f_select_clears Gen.Facts.table && f_auth_final Gen.Facts.table && f_short_tagged Gen.Facts.table = true.
 Proof. vm_compute. reflexivity. Qed.
 Print Assumptions c06_facts_now.
 
-(** known finding tag_only_line: a line consisting of a tag alone is answered
-    with an untagged BAD, for every table *)
-Theorem c06_refuted_tag_only_line : forall t,
-  tagged_for_line t (S_ "a1") = (0, 0) /\ classify_line (S_ "a1") = LUntaggedBad.
-Proof. exact tag_only_line_untagged. Qed.
-Print Assumptions c06_refuted_tag_only_line.
+(** regression witness of the repaired tag_only_line defect: without the
+    tagged reply in the short-line branch a tag-only line got no completion *)
+Theorem c06_tag_only_line_was_untagged : forall t, f_short_tagged t = false ->
+  tagged_for_line t (S_ "a1") = (0, 0) /\ classify_line (S_ "a1") = LShort (S_ "a1").
+Proof. exact tag_only_line_was_untagged. Qed.
 
 (** regression witness of the repaired failed-SELECT defect: without the
     clearing the previous selection survives a failed SELECT *)
